@@ -107,9 +107,12 @@ def make_inputs(seed, tier):
     """Returns the list of groups for a tier.  Everything is derived from `seed`."""
     rnd = random.Random(seed)
     cf = corpus_files()
-    tiny = [c for c in cf if c[2] and len(c[1]) < 6000]
+    tiny = [c for c in cf if c[2] and len(c[1]) < (2500 if tier == "quick" else 6000)]
     big = [c for c in cf if not c[2] and len(c[1]) < 20000]     # measured: every one compiles in < 0.5 s of CPU
     n_tiny, n_gen, n_bad, n_corpus, gsize = (9, 6, 3, 6, 3) if tier == "quick" else (57, 90, 24, 300, 3)
+    scale = float(os.environ.get("VERIF_C08_SCALE", "1"))       # development aid: shrink the thorough tier's input sample
+    if tier != "quick" and scale != 1:
+        n_tiny, n_gen, n_bad, n_corpus = (max(3, int(n * scale)) for n in (n_tiny, n_gen, n_bad, n_corpus))
     rnd.shuffle(tiny)
     rnd.shuffle(big)
     groups = []
@@ -148,11 +151,7 @@ def make_inputs(seed, tier):
     add("genq", good[half:], ["-Q3"])
     add("genbad", bad)
     if tier == "quick":
-        # periods 50 <= k < 1000 cost about 20 s of CPU per program: the quick tier spends that on the smallest program only
-        smallest = min(good[:half], key=lambda i: len(i.text))
-        g = Group("genmid0", [Input("m_" + smallest.name, smallest.text, "gen", smallest.origin)])
-        g.midk = True
-        groups.append(g)
+        pass      # periods 50 <= k < 1000 cost about 20 s of CPU per generated program: thorough tier only
     else:
         marked = 0
         for g in groups:
@@ -281,22 +280,29 @@ class Runner(object):
         if self.ns:
             seen_dir = self.mnt[c["cwd"]]
             cmd = [self.unshare, "-m", self.sh, "-c", self.NS_SCRIPT % self.mount, "sh", d, seen_dir] + cmd
-        est = cost(group, conf) * len(files)
-        limit = min(900, 60 + 60 * est)
+        est = sum(cost_file(texts[n], conf) for n in files)
+        limit = min(1800, 120 + 100 * est)
         with self.lock:
-            skip = self.hangs >= 3 and est > 1
+            skip = self.hangs >= 3 and c["gc"]["k"] > 0
         if skip:
-            # several invocations already failed to terminate: the verdict is settled, do not wait for the expensive rest
+            # several invocations already failed to terminate: the verdict is settled, do not wait for the rest of the forced runs
             shutil.rmtree(top, ignore_errors=True)
-            self.skipped_after_hangs += 1
+            with self.lock:
+                self.skipped_after_hangs += 1
             return None
         rc, out, err, to = vlib.run(cmd, cwd=d, timeout=limit, env=env)
         if to:
-            # no exit within the limit (the estimate times 60 plus a minute): observed as such -- the Hang event of DESIGN.md
-            # appendix D; whatever was written before is hashed as it is
+            # no exit within the limit (a hundred times the estimate plus two minutes).  Before this is taken as the Hang
+            # event of DESIGN.md appendix D the invocation is repeated with three times the limit: a loaded machine is not a hang
+            for n in os.listdir(d):
+                if n not in files:
+                    pth = os.path.join(d, n)
+                    shutil.rmtree(pth) if os.path.isdir(pth) else os.unlink(pth)
+            rc, out, err, to = vlib.run(cmd, cwd=d, timeout=3 * limit, env=env)
+        if to:
             with self.lock:
                 self.hangs += 1
-                self.hang_list.append({"group": group.gid, "cfg": conf["id"], "files": list(files), "limit_s": round(limit)})
+                self.hang_list.append({"group": group.gid, "cfg": conf["id"], "files": list(files), "limit_s": round(4 * limit)})
             rc = 999
             out = (out or b"") + b"\0<hang: no exit within the time limit>"
             err = err or b""
@@ -396,7 +402,7 @@ def plan(confs, groups, tier, seed):
                      cid(gc=gc("none", 1000, 500)), cid(gc=gc("-Wgc", 1000, 999), aslr="on", env="polluted")]
         by_class = {"tiny": [cid(gc=gc("none", 1, 0)), cid(gc=gc("-Wgc", 2, 1)), cid(gc=gc("none", 3, 1)), cid(gc=gc("none", 7, 6), aslr="on"),
                              cid(gc=gc("none", 50, 25), inv="batch")],
-                    "gen": [cid(gc=gc("none", 50, 49))], "corpus": []}
+                    "gen": [], "corpus": []}
     else:
         common = base + unforced + rnd.sample([c for c in far if c["cfg"]["gc"]["k"] == 0], 40)
         common += [c for c in star + far if c["cfg"]["gc"]["k"] >= 1000 and c["dist"] <= 1]
@@ -430,11 +436,19 @@ def hash_int(s):
     return int(hashlib.sha1(s.encode()).hexdigest()[:8], 16)
 
 
-def cost(g, c):
-    """Estimated CPU seconds of one file of group g under configuration c (measured on this machine, unloaded)."""
+def cost_file(inp, c):
+    """Estimated CPU seconds of compiling one file under configuration c (measured on this machine, unloaded:
+    a forced collection costs about 1 ms on a library-free file plus 2 ms per KB of source, and 13 ms once the library is loaded)."""
     k = c["cfg"]["gc"]["k"]
-    unit, per = {"tiny": (0.006, 250.0), "gen": (0.09, 15000.0), "corpus": (0.05, 10000.0)}[g.cls]
+    kb = len(inp.text) / 1000.0
+    if inp.cls == "tiny":
+        return 0.006 + ((1.0 + 2.3 * kb) / k if k else 0)
+    unit, per = {"gen": (0.09, 15000.0), "corpus": (0.05, 10000.0)}[inp.cls]
     return unit * (1 + (per / k if k else 0))
+
+
+def cost(g, c):
+    return max(cost_file(i, c) for i in g.inputs)
 
 
 def run_all(runner, pairs, nproc):
@@ -473,9 +487,10 @@ def run_all(runner, pairs, nproc):
                 if batch:
                     # the batch as a whole is an input too: the same multi-file command line must reproduce itself
                     emit(c, "%s|%s|in-batch:%s" % (n, kind, g.gid), dg)
-        # the exit status of the group = the sum of the error counts (comparable only if every file was started)
+        # the exit status of the group, comparable between one invocation and several only as "did any file fail"
+        # (a fatal error ends a batch with status 1 whatever was counted before); only if every file was started
         if complete:
-            emit(c, "%s|exit" % g.gid, [rcsum, 0, 0, 0])
+            emit(c, "%s|exit" % g.gid, [1 if rcsum else 0, 0, 0, 0])
         if batch and rs:
             emit(c, "%s|exit|in-batch:%s" % (g.gid, g.gid), [rcsum, 0, 0, 0])
     out = {}
